@@ -150,8 +150,11 @@ def main():
                 f = r['functions'].get(q)
                 errs = [e for e in r['errors'] if e['fn'] == q or (e['fn'] is None and q in lemma_fns and q.split('::')[-1] in e.get('rendered', ''))]
                 if f is None and not errs:
-                    # functions with no SMT query (trivial) do not appear in the breakdown: count as discharged only if verus verified the file
-                    if r['n_errors'] == 0:
+                    # functions with no SMT query (trivial) do not appear in the breakdown: count as discharged only if it is
+                    # an extracted function of this unit and verus verified the whole file
+                    if q not in {m['qual'] for m in metas}:
+                        undecided.append('unit %s: %s is named in the registry but is neither an extracted function nor a verified function of the unit' % (u, q))
+                    elif r['n_errors'] == 0:
                         discharged += 1
                     continue
                 if f is not None and f.get('success') and not errs:
@@ -167,6 +170,10 @@ def main():
                     continue
                 if not relevant:
                     notes.append('unit %s: obligation outside this property failed: %s' % (u, name))
+                    continue
+                fm = next((m for m in metas if m['qual'] == q), None)
+                if fm and fm['rules_fired'].get('hint_skipped'):
+                    undecided.append('unit %s: %s fails but a proof hint lost its anchor in the current source (the proof script no longer applies): %s' % (u, q, e['label'][:100]))
                     continue
                 violations.append({'engine': 'verus', 'unit': u, 'obligation': name, 'fn': q, 'file': e['file'], 'src_line': e['src_line'],
                                    'exit': e['exit_text'], 'diagnostic': e['rendered'],
